@@ -159,11 +159,38 @@ func CatalogGen(o CatalogOpts) *rapid.Generator[Catalog] {
 					s.Exp = s.Exp % (maxExp + 1)
 				}
 				if s.Kind == uni.Tombstone || s.Kind == uni.Lock {
-					v := rapid.IntRange(0, uni.NObjects-2).Draw(t, "target")
-					if v >= id {
-						v++
+					// bias: the target of a lock / tombstone drawn earlier (lock vs tombstone
+					// conflicts, several locks on one object), else an object that can be
+					// stored as REGULAR (incl. parents and children), else any other ID
+					var shared, regular []int
+					for i := 0; i < uni.NObjects; i++ {
+						o := cat.Specs[c][i]
+						if i == id || o.Kind == "" {
+							continue
+						}
+						switch o.Kind {
+						case uni.Tombstone, uni.Lock:
+							if o.Target != id {
+								shared = append(shared, o.Target)
+							}
+						case uni.Link:
+						default:
+							regular = append(regular, i)
+						}
 					}
-					s.Target = v
+					mode := rapid.IntRange(0, 9).Draw(t, "tmode")
+					switch {
+					case mode < 4 && len(shared) > 0:
+						s.Target = rapid.SampledFrom(shared).Draw(t, "target")
+					case mode < 8 && len(regular) > 0:
+						s.Target = rapid.SampledFrom(regular).Draw(t, "target")
+					default:
+						v := rapid.IntRange(0, uni.NObjects-2).Draw(t, "target")
+						if v >= id {
+							v++
+						}
+						s.Target = v
+					}
 				}
 				set(s, "loose-"+s.Kind)
 			}
